@@ -592,6 +592,16 @@ class Driver:
         if before is not None:
             ev["frame"] = self.content_fingerprint() == before
         ev["obs"] = self.abs_state(op.get("k") if (name == "Query" and not ev["err"]) else None)
+        if name == "Query" and not ev["err"] and op.get("k") in DM_KINDS:
+            d, k = ev["obs"]["dm"], op["k"]
+            coherent = d["fc"] == "cur" and d["nac"] == "cur" and d["sr"] != "old" and \
+                (ev["obs"]["gv"] != "stale" or k not in ("qpgv", "gvq", "meshgv", "bandgv"))
+            if not coherent:  # (only after the caller changed internal state through an alias)
+                if k in MESH_KINDS and self.ph._mesh is not None:
+                    self.book.mesh[id(self.ph._mesh)] = "stale"
+                elif k in ("qp", "qpgv", "band", "bandgv"):
+                    self.book.qp = "stale"
+                ev["obs"]["rs"] = self.book.project(self.ph)
         ev["snapok"] = self.book.check_frozen(self.ph, ev.pop("rewritten", ()) if not ev["err"] else ())
         return ev
 
